@@ -144,11 +144,24 @@ Definition of_tres (r : tres) : sx :=
   | TCat (Some d) => L [I 1%Z; of_dval d]
   | TErr => L [I 2%Z]
   end.
+(* results of the arithmetic sensors have numerators beyond a native int (x * pi64 / 180): base 2^30 limbs, least
+   significant first, after the sign *)
+Fixpoint limbs (fuel : nat) (z : Z) : list sx :=
+  match fuel with
+  | O => []
+  | S f => if Z.eqb z 0 then [] else I (z mod 1073741824)%Z :: limbs f (z / 1073741824)%Z
+  end.
+Definition of_Zbig (z : Z) : sx := L (I (Z.sgn z) :: limbs 16 (Z.abs z)).
+Definition of_Qbig (q : Q) : sx := let r := Qred q in L [of_Zbig (Qnum r); of_Zbig (Zpos (Qden r))].
+Definition of_qn_big (q : qn) : sx := match q with None => L [] | Some q => of_Qbig q end.
+Definition of_res_big (r : res) : sx :=
+  match r with RVals l => L [I 0%Z; L (map of_qn_big l)] | _ => of_res r end.
+
 Definition of_entries (c : cache) : sx :=
   L (map (fun kv => L [of_string (fst kv);
                        match snd kv with
                        | ERaw g => L [I 0%Z; of_nat g]
-                       | EVals l => L [I 1%Z; L (map of_qn l)]
+                       | EVals l => L [I 1%Z; L (map of_qn_big l)]
                        | ECat => L [I 2%Z]
                        end]) (c_raw c)).
 
@@ -166,7 +179,7 @@ Definition wire_128 (x : sx) : sx :=
          L (map (fun t => of_qn (spec_numeric g' (offset_of p') t)) tq)]
   | L [I 2%Z; c; ops] =>
       let '(c', rs) := run_v arith_vf virtual_ipv (to_cache c) (map to_op (to_list ops)) in
-      L [L (map of_res rs); of_entries c'; of_store (c_store c')]
+      L [L (map of_res_big rs); of_entries c'; of_store (c_store c')]
   | L [I 3%Z; c; nodes; xs] =>
       let k := match c with L [] => pi64 / 180 | _ => to_Q c end in
       let nd := map (fun n => match n with L [a; b] => (to_Q a, to_Q b) | _ => (0, 0) end) (to_list nodes) in
